@@ -551,6 +551,9 @@ func (ir *idxRun) traceHash() uint64 { return ir.h }
 // C01
 
 func execC01(raw json.RawMessage, wantLog bool) (out Outcome) {
+	if isClusterCase(raw) {
+		return execC01Cluster(raw, wantLog)
+	}
 	var c IdxCase
 	if err := json.Unmarshal(raw, &c); err != nil {
 		out.Harness = err.Error()
@@ -645,6 +648,9 @@ func genC01(r *simrt.Rand, tier string) json.RawMessage {
 
 // shrinkIdx: drop chunks of ops, then single ops, then simplify vectors / config.
 func shrinkIdx(raw json.RawMessage) []json.RawMessage {
+	if isClusterCase(raw) {
+		return shrinkC01Cluster(raw)
+	}
 	var c IdxCase
 	if json.Unmarshal(raw, &c) != nil {
 		return nil
@@ -716,15 +722,17 @@ func init() {
 		ID:    "C01",
 		Level: "exploration",
 		Rule: "case = index parameters (dim, metric, M, ef, efConstruction, selection mode, owned map order) + a history of insert/remove/update/save+load/search over 2..40 ids; " +
-			"non-trivial = at least one removal or update took effect before a search; distinct = distinct hash of the executed event log (ops with their outcomes, result sizes)",
+			"non-trivial = at least one removal or update took effect before a search; distinct = distinct hash of the executed event log (ops with their outcomes, result sizes). " +
+			"Second leg (\"cluster\", World III, counters prefixed cluster_leg_): fault-free cluster of 1..3 real servers, dataset with 1..4 partitions x 1..3 replicas under any of the three metrics, 1..3 phases of inserts/updates/removes with metadata (single and batch, through any node), optionally a restart of every node that recovers the partitions from snapshot + log suffix, and after each phase dataset searches through the Search service of any node, judged by the same oracle against a sequential map",
 		Assumptions: []string{
 			"the oracle computes distances with the repository's own space.Distance (SIMD kernels are C15's subject, not applicable here)",
 			"map iteration order inside package index is one of the orders Go permits, chosen by the simulator (rewrite R3)",
 			"NaN-producing vectors (zero vector under cosine) are excluded here and exercised under C12",
 		},
-		Real:   []string{"index.Hnsw (Insert, Remove, GetVertex, Search, Save, Load)", "index/space", "utils.PriorityQueue", "math.Vector"},
-		Stub:   []string{"none (update is driven as storage/partition.go drives it: lookup, remove, merge metadata, insert at old level)"},
-		Probes: []string{"entry_point_removed", "snapshot_loads", "snapshot_loads_into_used_index", "updates_applied", "final_state_has_links_to_tombstones", "searches"},
+		Real:   []string{"index.Hnsw (Insert, Remove, GetVertex, Search, Save, Load)", "index/space", "utils.PriorityQueue", "math.Vector", "cluster leg: everything World III runs (services.Search/DataManager handlers, storage.Dataset fan-out and merge, partitions, raft, Badger log)"},
+		Stub:   []string{"index leg: none (update is driven as storage/partition.go drives it: lookup, remove, merge metadata, insert at old level)", "cluster leg: TCP/HTTP2, clock, process crash (as in every World III check)"},
+		Probes: []string{"entry_point_removed", "snapshot_loads", "snapshot_loads_into_used_index", "updates_applied", "final_state_has_links_to_tombstones", "searches",
+			"cluster_leg_dataset_search_results_checked", "cluster_leg_dataset_searches_after_removal_or_update", "cluster_leg_node_restarts", "cluster_leg_follower_installed_snapshot"},
 		Budget: func(tier string) (int, time.Duration) {
 			if tier == "thorough" {
 				return 400000, 40 * time.Minute
@@ -734,6 +742,21 @@ func init() {
 		Gen:    genC01,
 		Exec:   withSample(genC01, execC01),
 		Shrink: shrinkIdx,
+		// dataset half of the property: World III cluster leg (world3_c01.go)
+		Legs: []Leg{{Name: "cluster", RecycleEvery: 25, Gen: genC01Cluster, Seeds: func(tier string) int {
+			if tier == "thorough" {
+				return 12000
+			}
+			return 320
+		}}},
+		MemLimit:    96 << 30, // address space (Badger maps its files); resident memory is watched by the parent
+		WallPerSeed: 120 * time.Second,
+		DeathSig: func(stderr string, cs json.RawMessage) (string, string) {
+			if isClusterCase(cs) {
+				return w3DeathSig("C01")(stderr, cs)
+			}
+			return "", ""
+		},
 	})
 }
 
